@@ -140,10 +140,14 @@ def stepEv (ws : List String) (impl : String) : String :=
       let r' := (decSE j').map eventOfSer
       let implR : Option Event := if ir == "err" then none else (parseWhole (words ir)).bind decEventL
       if ir != "err" && implR.isNone then "BADLINE" else
-      if !(implR == some e) then
+      -- the listed finding: a sub-millisecond timestamp comes back cut to the millisecond, nothing else changes
+      let explained := !e.whole && implR == some e.truncMs
+      if !(implR == some e) && !explained then
         s!"JUDGE C20 the event is not restored equal: {if ir == "err" then "the reader rejects what the writer wrote" else short ir}"
       else if Json.text j' != ij then s!"DIFF model={short (Json.text j')}"
       else if !(r' == implR) then "DIFF model restores a different event"
+      else if !(implR == some e) then
+        s!"KNOWN[C20-submillisecond-event-timestamps] timestamp {e.ts} ns restored as {e.truncMs.ts} ns"
       else "ok"
 
 /-- `ck engine|checkpoint <tree>`: codec::serialize then codec::deserialize -/
@@ -203,17 +207,20 @@ def kleeneInSase (x : SaseCkpt) : Bool :=
     match r.kleeneEvents with | some (_ :: _) => true | _ => false
 
 /-- `scut k n tags=… subms=b <SASE checkpoint>`: the same judge for a `SaseEngine` driven through its API -/
-def stepScut (ws : List String) (impl : String) : String :=
+def stepScut (evs : List (Option Event)) (ws : List String) (impl : String) : String :=
   match ws with
-  | _k :: _n :: tags :: _subms :: tree =>
+  | k :: _n :: tags :: _subms :: tree =>
     match (parseWhole tree).bind decSase with
     | none => "BADLINE"
     | some c =>
+      let subms := (evs.take (k.toNat?.getD 0)).any fun oe => match oe with | some e => !e.whole | none => false
       if impl == "same" then "ok"
       else
         let tagList := ((tags.drop 5).toString).splitOn ","
         if tagList.contains "kleene-self-ref" && kleeneInSase c && impl.startsWith "diff" then
           s!"KNOWN[C19-kleene-deferred] restored run lost its deferred Kleene predicate: {short impl}"
+        else if subms && impl.startsWith "diff" then
+          s!"KNOWN[C19-submillisecond-timestamps] events restored with millisecond timestamps: {short impl}"
         else s!"JUDGE C19 matches after the cut differ from the uninterrupted SaseEngine: {short impl}"
   | _ => "BADLINE"
 
@@ -231,18 +238,28 @@ def premisesHold (c : EngineCkpt) : Bool :=
 The judge is the property itself (outputs after the cut equal); a failing cut is classified under
 the one listed finding iff the program has a self-referencing Kleene predicate (tag from the
 generator) and the checkpoint at the cut holds a run with a Kleene capture. -/
-def stepCut (ws : List String) (impl : String) : String :=
+def stepCut (evs : List (Option Event)) (ws : List String) (impl : String) : String :=
   match ws with
-  | _k :: _n :: tags :: _subms :: tree =>
+  | k :: _n :: tags :: _subms :: tree =>
     match (parseWhole tree).bind decEngine with
     | none => "BADLINE"
     | some c =>
+      -- guard of the sub-millisecond finding: an event with a sub-millisecond timestamp before the cut
+      let subms := (evs.take (k.toNat?.getD 0)).any fun oe => match oe with | some e => !e.whole | none => false
+      -- guard of the sliding count finding: the program has a plain sliding count window (generator tag)
+      -- and the checkpoint holds a non-partitioned window state (its buffer may still be empty: with
+      -- slide > size a fresh window starts its counter at slide - size, a restored one at 0)
+      let plainBuf := c.windowStates.any fun kv => kv.2.partitions.isEmpty
       if impl == "same" then
         (if premisesHold c then "ok" else "DIFF a structural premise of engine_restore does not hold of this engine state")
       else
         let tagList := ((tags.drop 5).toString).splitOn ","
         if tagList.contains "kleene-self-ref" && hasKleeneRun c && impl.startsWith "diff" then
           s!"KNOWN[C19-kleene-deferred] restored run lost its deferred Kleene predicate: {short impl}"
+        else if tagList.contains "slidingCount-plain" && plainBuf && impl.startsWith "diff" then
+          s!"KNOWN[C19-sliding-count-counter-reset] plain sliding count window restored with its slide counter at 0: {short impl}"
+        else if subms && impl.startsWith "diff" then
+          s!"KNOWN[C19-submillisecond-timestamps] events restored with millisecond timestamps: {short impl}"
         else s!"JUDGE C19 outputs after the cut differ from the uninterrupted run: {short impl}"
   | _ => "BADLINE"
 
@@ -322,8 +339,11 @@ structure St where
   tb : Option WmSt := none
   /-- engine-level scenario with a single window stream: (stream name, fresh operator, configuration) … -/
   wspec : Option (String × WinSt × WinCfg) := none
-  /-- … and its operations in order (`none` for an operation that is not an event of type `T`) -/
+  /-- the operations of an engine / SaseEngine scenario in order (`none` for one that is not an event) -/
   evs : List (Option Event) := []
+  /-- component-level window scenario: the window kind, and whether a sub-millisecond timestamp occurred -/
+  wkind : String := ""
+  subSeen : Bool := false
 
 /-- engine-level tie of `create_checkpoint`'s window arms: the window state of stream `W` after the
 first `k` operations, computed by the model from the events alone, must be what the real engine
@@ -334,7 +354,7 @@ def checkWindowCkpt (st : St) (ws : List String) : String :=
     match k.toNat?, (parseWhole tree).bind decEngine with
     | some k, some c =>
       let w := (st.evs.take k).foldl (fun w oe => match oe with
-        | some e => (WinSt.step cfg pkOf w (.add e)).1
+        | some e => if e.etype == "T" then (WinSt.step cfg pkOf w (.add e)).1 else w
         | none => w) fresh
       match c.windowStates.lookup name with
       | some real => if canonWC real == canonWC w.ckpt then "ok" else s!"DIFF model window checkpoint differs: {short (Json.text (encWC (canonWC w.ckpt)))}"
@@ -393,8 +413,14 @@ def stepWin (st : St) (op : WinOp) (impl : String) : St × String :=
       -- the property on the implementation's own answer: both copies emit the same
       match (impl.splitOn " B=") with
       | [ia, ib] =>
-        if (ia.drop 2).toString != ib then (st', s!"JUDGE C19 the restored window emits {ib}, the uninterrupted one {(ia.drop 2).toString}")
-        else (st', verdict s!"A={ra.2} B={rb.2}" impl)
+        let v := verdict s!"A={ra.2} B={rb.2}" impl
+        if v != "ok" then (st', v)
+        else if (ia.drop 2).toString != ib then
+          -- the property fails on this operation; the model (which mirrors the code) agrees: classify
+          if st.wkind == "slidingCount" then (st', s!"KNOWN[C19-sliding-count-counter-reset] the restored window emits {ib}, the uninterrupted one {(ia.drop 2).toString}")
+          else if st.subSeen then (st', s!"KNOWN[C19-submillisecond-timestamps] the restored window emits {ib}, the uninterrupted one {(ia.drop 2).toString}")
+          else (st', s!"JUDGE C19 the restored window emits {ib}, the uninterrupted one {(ia.drop 2).toString}")
+        else (st', "ok")
       | _ => (st', "BADLINE")
 
 /-- `wcut => <JSON of the checkpoint>`: the model's checkpoint must be the same tree; then restore -/
@@ -414,14 +440,17 @@ def step (st : St) (line : String) : St × String :=
   | ["new"] => ({}, "")
   | ["wcfg", kind, dur, slide, n, m] =>
     match freshOfKind kind, dur.toInt?, slide.toInt?, n.toNat?, m.toNat? with
-    | some w, some d, some sl, some n, some m => ({ cfg := { dur := d, slide := sl, n := n, m := m }, a := some w, b := none }, "")
+    | some w, some d, some sl, some n, some m =>
+      -- a freshly constructed sliding count window starts its counter at `slide - size`
+      let w := match w with | .slidingCount _ => .slidingCount (SlidingCountSt.fresh n m) | w => w
+      ({ cfg := { dur := d, slide := sl, n := n, m := m }, a := some w, b := none, wkind := kind }, "")
     | _, _, _, _, _ => (st, "BADLINE")
   | "wadd" :: ws =>
     match (parseWhole ws).bind decEventL with
-    | some e => stepWin st (.add e) impl
+    | some e => stepWin { st with subSeen := st.subSeen || !e.whole } (.add e) impl
     | none => (st, "BADLINE")
   | ["wwm", t] => match t.toInt? with
-    | some t => stepWin st (.wm t) impl
+    | some t => stepWin { st with subSeen := st.subSeen || !wholeTs t } (.wm t) impl
     | none => (st, "BADLINE")
   | ["wcut"] => stepWcut st impl
   | ["tcfg", regs] => match parseRegs regs with
@@ -437,11 +466,13 @@ def step (st : St) (line : String) : St × String :=
   | "prog" :: _ => (st, "")
   | ["wspec", name, kind, dur, slide, n, m] =>
     match freshOfKindE kind, dur.toInt?, slide.toInt?, n.toNat?, m.toNat? with
-    | some w, some d, some sl, some n, some m => ({ st with wspec := some (name, w, { dur := d, slide := sl, n := n, m := m }), evs := [] }, "")
+    | some w, some d, some sl, some n, some m =>
+      let w := match w with | .slidingCount _ => .slidingCount (SlidingCountSt.fresh n m) | w => w
+      ({ st with wspec := some (name, w, { dur := d, slide := sl, n := n, m := m }) }, "")
     | _, _, _, _, _ => (st, "BADLINE")
   | "op" :: "ev" :: ws =>
     match (parseWhole ws).bind decEventL with
-    | some e => ({ st with evs := st.evs ++ [if e.etype == "T" then some e else none] }, "")
+    | some e => ({ st with evs := st.evs ++ [some e] }, "")
     | none => (st, "BADLINE")
   | "op" :: _ => ({ st with evs := st.evs ++ [none] }, "")
   | "ev" :: ws => (st, stepEv ws impl)
@@ -449,9 +480,9 @@ def step (st : St) (line : String) : St × String :=
   | "ck" :: "checkpoint" :: ws => (st, stepCk decCkpt encCkpt ws impl)
   | "det" :: variant :: ws => (st, stepDet variant ws impl)
   | "cut" :: ws =>
-    let v := stepCut ws impl
+    let v := stepCut st.evs ws impl
     (st, if v == "ok" then checkWindowCkpt st ws else v)
-  | "scut" :: ws => (st, stepScut ws impl)
+  | "scut" :: ws => (st, stepScut st.evs ws impl)
   | [] => (st, "")
   | _ => (st, "BADLINE")
 
